@@ -59,6 +59,7 @@ add("cv_contend", ["C01", "C04"], "t", progs=[P("L", cvl(v=1, dl=1), "U"), P("L"
 cvw = lambda **kw: op("cvwait", **kw)
 add("cv_xfer_g", ["C01", "C04", "C02"], "t", progs=[P("L", cvl(v=1), "U"), P("G1", "L", "set11", "U", "S"), P("G1", "L", "U")], NV=1)
 add("cv_rdsig_g", ["C01", "C04"], "t", progs=[P("L", cvw(), "U"), P("G1", "R", "S", "RU"), P("G1", "R", "RU")], NV=1)
+add("cv_allf_g", ["C04", "C06"], "q", progs=[P("L", mwt(1), "U"), P("G1", "L", cvw(), "U"), P("G2", "R", "S", "RU")], NV=1, conds=C1)
 add("cv_gen", ["C04", "C05"], "q", progs=[P("L", cvl(v=1, dl=1, x=9), "U"), P("L", "set11", "S", "U")], NV=1, MaxNow=1)
 add("cv_gen2_g", ["C04"], "t", progs=[P("L", cvl(v=1, dl=1, x=9), "U"), P("G1", "L", cvl(v=1, dl=1, x=9), "U"), P("G2", "L", "set11", "U", "S")], NV=1, MaxNow=1)
 add("mw_to_g", ["C05"], "q", progs=[P("L", mwt(1), "U"), P("G1", "L", mwt(1, dl=1), "U"), P("G2", "L", "set11", "U")], NV=1, conds=C1, MaxNow=1)
@@ -108,7 +109,8 @@ RANDOM = {
             dict(progs=[P("L", mwt(1, dl=1), "U"), P("R", mwt(1, dl=1), "RU"), P("L", "set11", "U"), P("R", "RU", "T")], NV=1, conds=C1)],
     "C02": [dict(progs=[P("L", "U", "L", "U"), P("R", "RU", "R", "RU"), P("L", "U", "T"), P("R", "RU", "RT"), P("T", "L", "U")], NV=1),
             dict(progs=[P("L", "U"), P("R", "RU"), P("R", "RU"), P("L", "U", "L", "U"), P("RT", "R", "RU")], NV=1)],
-    "C04": [dict(progs=[P("R", cvw(), "RU"), P("G1", "L", cvw(), "U"), P("G2", "R", cvw(), "RU"), P("G3", "L", "S", "U")], NV=1),
+    "C04": [dict(progs=[P("L", mwt(1), "U"), P("G1", "L", cvw(), "U"), P("G2", "R", "S", "RU"), P("G2", "R", "RU")], NV=1, conds=C1),
+            dict(progs=[P("R", cvw(), "RU"), P("G1", "L", cvw(), "U"), P("G2", "R", cvw(), "RU"), P("G3", "L", "S", "U")], NV=1),
             dict(progs=[P("L", cvw(), "U"), P("G1", "R", cvw(), "RU"), P("G2", "R", cvw(), "RU"), P("G3", "L", "S", "U", "L", "B", "U")], NV=1),
             dict(progs=[P("L", cvl(v=1), "U"), P("R", cvl(v=1), "RU"), P("R", cvl(v=1, dl=2), "RU"), P("L", "set11", "U", "B")], NV=1),
             dict(progs=[P("L", cvl(v=1), "U"), P("G1", "L", "set11", "U", "S"), P("G1", "L", "U")], NV=1),
